@@ -193,6 +193,13 @@ func init() {
 		ex.observes = append(ex.observes, args[0])
 		return nil
 	})
+	reg(verifPkg+".MapOrder", func(fr *frame, args []value) value {
+		on := args[0].(bool)
+		old, oldp := MapOrderPermute, mapPolicy
+		MapOrderPermute, mapPolicy = on, -1
+		jundo(func() { MapOrderPermute, mapPolicy = old, oldp })
+		return nil
+	})
 	reg(verifPkg+".PreemptBound", func(fr *frame, args []value) value {
 		sched.maxPreempt = int(asInt64(args[0]))
 		return nil
